@@ -546,6 +546,35 @@ def _check_image(ctx, d, ds, fr, reqs, pending):
                                   'history': 'decode whole array, replace PixelData value (first and last frame swapped), fetch'},
                                  'answered from the pixel data that were replaced' if st == 'ok' else f'refused: {val}',
                                  site=what + '/pixel-data-replaced')
+    # ---- two lazily read images (and a raw reader) on ONE open file object, reads interleaved: a read must find its frame
+    # wherever the previous reader left the file position
+    if d['idx'] % 3 != 1:
+        shared = io.BytesIO(blob)
+        sta, ia = _fetch(hd.imread, shared, lazy_frame_retrieval=True)
+        stb, ib = _fetch(hd.imread, shared, lazy_frame_retrieval=True)
+        if sta == 'ok' and stb == 'ok':
+            rr = ctx.rng('shared-file', d['idx'])
+            for _ in range(min(2 * n + 2, 10)):
+                who, k = rr.choice(['a', 'b']), rr.randint(1, n)
+                obj = ia if who == 'a' else ib
+                how = rr.choice(['single', 'batch', 'raw'])
+                if how == 'single':
+                    st2, v = _fetch(obj.get_stored_frame, k)
+                elif how == 'batch':
+                    st2, v = _fetch(lambda: obj.get_stored_frames([k, 1 + (k % n)])[0])
+                else:
+                    st2, v = _fetch(obj.get_raw_frame, k)
+                    ctx.case(path='shared-file/raw')
+                    if st2 != 'ok':
+                        ctx.fail({'image': d, 'path': 'shared-file', 'k': k, 'object': who}, f'raw frame refused: {v}', site='get_raw_frame/shared-file')
+                    continue
+                ctx.case(path='shared-file/' + how)
+                if st2 != 'ok' or not np.array_equal(np.asarray(v).astype(np.int64), ref[k - 1].astype(np.int64)):
+                    ctx.fail({'image': d, 'path': 'shared-file', 'k': k, 'object': who, 'call': how},
+                             'two lazily read images on one file object: a read returns another frame' if st2 == 'ok' else f'refused: {v}',
+                             site='get_stored_frame/shared-file')
+        else:
+            ctx.fail({'image': d, 'path': 'shared-file'}, f'could not open two images on one file object: {ia if sta != "ok" else ib}', site='open/shared-file')
     # raw reader API
     st, rd = _fetch(hd.io.ImageFileReader, DicomBytesIO(blob))
     if st == 'ok':
